@@ -25,3 +25,9 @@ M("carried-unrestored-local", "main.py",
   "        istate.nit += 1\n",
   "        istate.nit += 1\n        maxls = maxls + 0\n",
   ["CARRIED"], note="a local defined before the loop and recomputed from itself in every iteration")
+
+# finding 19 (pinned form): the floor constant of the path curvature
+M("f2floor-tiny-constant", "cauchy.py", "    eps_f_sec = np.finfo(float).eps\n", "    eps_f_sec = 1e-30\n", ["F2FLOOR"], canary=True,
+  note="pinned defect 19: c is round-off garbage when only zero-gradient variables remain free")
+M("f2floor-no-floor-factor", "cauchy.py", "    eps_f_sec = np.finfo(float).eps\n", "    eps_f_sec = 0.0\n", ["F2FLOOR"])
+Q("f2floor-literal-epsmch", "cauchy.py", "    eps_f_sec = np.finfo(float).eps\n", "    eps_f_sec = 2.2e-16\n", ["F2FLOOR"])
